@@ -179,9 +179,21 @@ func (w *World) registerTimeIntrinsics() {
 		t := e.errorsPkgType("context", "backgroundCtx")
 		return &IfaceVal{typ: t, val: &OpaqueVal{name: "ctx", data: &ctxState{}}}
 	}
+	// what a derived context inherits: the request scope its parent carries (the proxy keeps the
+	// scope as a context value)
+	parentScope := func(v Value) Value {
+		if iv, ok := v.(*IfaceVal); ok {
+			if ov, ok := iv.val.(*OpaqueVal); ok && ov.name == "ctx" {
+				if st, ok := ov.data.(*ctxState); ok {
+					return st.scope
+				}
+			}
+		}
+		return nil
+	}
 	timedCtx := func(e *Exec, fn *ssa.Function, a []Value) Value {
 		t := e.errorsPkgType("context", "backgroundCtx")
-		return tuple(&IfaceVal{typ: t, val: &OpaqueVal{name: "ctx", data: &ctxState{timed: true}}}, &FuncVal{builtin: "verif:noop"})
+		return tuple(&IfaceVal{typ: t, val: &OpaqueVal{name: "ctx", data: &ctxState{timed: true, scope: parentScope(a[0])}}}, &FuncVal{builtin: "verif:noop"})
 	}
 	// verifHang(ctx): a peer that never answers.  A context with a deadline expires (Err() is
 	// non-nil from then on) and its error comes back; without a deadline the wait ends in a
@@ -200,18 +212,49 @@ func (w *World) registerTimeIntrinsics() {
 	I["context.Background"] = func(e *Exec, fn *ssa.Function, a []Value) Value { return ctxVal(e) }
 	I["context.TODO"] = func(e *Exec, fn *ssa.Function, a []Value) Value { return ctxVal(e) }
 	withCancel := func(e *Exec, fn *ssa.Function, a []Value) Value {
-		return tuple(ctxVal(e), &FuncVal{builtin: "verif:noop"})
+		t := e.errorsPkgType("context", "backgroundCtx")
+		return tuple(&IfaceVal{typ: t, val: &OpaqueVal{name: "ctx", data: &ctxState{scope: parentScope(a[0])}}}, &FuncVal{builtin: "verif:noop"})
 	}
 	I["context.WithTimeout"] = timedCtx
 	I["context.WithCancel"] = withCancel
 	I["context.WithDeadline"] = timedCtx
 	I["context.WithValue"] = func(e *Exec, fn *ssa.Function, a []Value) Value { return a[0] }
-	I["(*net/http.Request).Context"] = func(e *Exec, fn *ssa.Function, a []Value) Value { return ctxVal(e) }
-	I["(*net/http.Request).WithContext"] = func(e *Exec, fn *ssa.Function, a []Value) Value { return a[0] }
+	// a request's context carries the request scope; WithContext makes a shallow copy of the
+	// request whose scope is whatever the new context carries (none for a context that does not
+	// descend from the request's own)
+	I["(*net/http.Request).Context"] = func(e *Exec, fn *ssa.Function, a []Value) Value {
+		t := e.errorsPkgType("context", "backgroundCtx")
+		st := &ctxState{}
+		if p, ok := a[0].(*Pointer); ok && !isNilPtr(p) {
+			if sc, ok := e.hidden[fmt.Sprintf("scope:%d", p.obj.id)]; ok {
+				st.scope = sc.(Value)
+			}
+		}
+		return &IfaceVal{typ: t, val: &OpaqueVal{name: "ctx", data: st}}
+	}
+	I["(*net/http.Request).WithContext"] = func(e *Exec, fn *ssa.Function, a []Value) Value {
+		p := a[0].(*Pointer)
+		if isNilPtr(p) {
+			e.panicHere("nil pointer dereference (nil *http.Request)")
+		}
+		obj := e.newObject(p.obj.typ, p.obj.val, "request")
+		if sc := parentScope(a[1]); sc != nil {
+			e.hidden[fmt.Sprintf("scope:%d", obj.id)] = sc
+		}
+		for _, k := range []string{"outgoing", "query", "postform"} {
+			if v, ok := e.hidden[fmt.Sprintf("%s:%d", k, p.obj.id)]; ok {
+				e.hidden[fmt.Sprintf("%s:%d", k, obj.id)] = v
+			}
+		}
+		return &Pointer{obj: obj}
+	}
 }
 
 // ctxState: whether a context has a deadline, and whether a hanging callee let it run out
-type ctxState struct{ timed, expired bool }
+type ctxState struct {
+	timed, expired bool
+	scope          Value // the request scope carried as a context value (nil: none)
+}
 
 // opaque method calls (contexts)
 func (w *World) opaqueMethodImpl(ov *OpaqueVal, name string) opaqueMethodFn {
